@@ -276,7 +276,7 @@ var propNotes = map[string]string{
 	"C16": "table contents (glyph list, AGLFN, Zapf Dingbats, compat expansions) are data; decision order of the lookups, '.'-suffix and '_' splitting (strings package), final scalar-range test of the u form, FromUnicode and the name/rune round trip are not under contract.",
 	"C17": "encodeCharstrings' map loop is not claimed (inner loops in the body; only the own-key frame is proved); text/template's sorted map iteration, sort.Slice / slices.Sort producing a function of the key set, absence of time/rand/address dependence (not scanned) are trusted; bForall over a dictionary is order dependent by PLRM and outside the anchored files.",
 	"C18": "interleavings themselves are outside a sequential verifier: what is proved is freshness of everything reachable from a new interpreter and the lock discipline of names.glyphMap (fields only touched with the mutex held). Not covered: that the map published by getEncode is never written afterwards (read without the lock in encode), a module-wide scan that no package-level variable is written after init, same-results-as-sequential under concurrency.",
-	"C19": "GlyphList: length and sort keys are proved, the final order (trusted sort.Slice with the verified comparator) and duplicate-freeness are not; BuiltinEncoding and the font-level union of FontBBox/FontBBoxPDF are not under functional contract (only order independence, C17); the matrix arithmetic of the PDF variants is treated as real arithmetic.",
+	"C19": "GlyphList: length and sort keys are proved, the final order (trusted sort.Slice with the verified comparator) and duplicate-freeness are not; the font-level union of FontBBox/FontBBoxPDF is not under functional contract (only order independence, C17); the matrix arithmetic of the PDF variants is treated as real arithmetic.",
 	"C20": "float64 arithmetic on coordinates is treated as exact real arithmetic (assumption 'machine arithmetic treated as mathematical'); bounds are claimed for |x| <= 10^6; that posX/posY equal the byte-level decoding of the emitted numbers rests on appendNumber's contract (value of the appended token) and is not re-parsed from the buffer inside encodeCharString.",
 }
 
